@@ -136,8 +136,13 @@ func c12long(c *core.Ctx) {
 			if rng.Intn(4) == 0 {
 				p = p.Add(decimal.New(int64(rng.Intn(1000000)), 0))
 			}
-			if p.IsZero() || decimal.New(1, 0).DivRound(p, 40).Truncate(8).IsZero() {
-				continue // (a price whose reciprocal truncates to zero is a different discussion)
+			if rng.Intn(8) == 0 {
+				// a price above 10^8: its reciprocal truncates to 0.00000000 (stored like any other reciprocal; what is
+				// valued through it is worth nothing)
+				p = p.Add(decimal.New(int64(1+rng.Intn(50)), 8))
+			}
+			if p.IsZero() {
+				continue
 			}
 			lc.Decls = append(lc.Decls, longDecl{C: a, T: b, P: p})
 		}
